@@ -491,6 +491,7 @@ func (w *subWorld) endBlock() bool {
 	})
 	if halt {
 		w.out.Count("endblock.halt")
+		w.out.Count(fmt.Sprintf("endblock.halt.injected=%v:%.90s", w.injected, what))
 		// a panic raised by a subaccount hook is a C11 (hooks_total) matter; any other end-block panic belongs to the
 		// bet / order-book slice and is recorded under C05 for the framework owner
 		hookPanic := strings.Contains(what, "greater than spent") || strings.Contains(what, "amount is not positive") ||
